@@ -122,10 +122,8 @@ Section Den.
                                     end)) (ips ++ filter (fun k => negb (mem k ips)) (keys P))%list in
             (* 2. sizes of this node's own input/through ports *)
             let non_out := filter non_output ports in
-            let my_in : list (string * option Q) :=
-                if is_root
-                then map (fun p => (p_name p, eval_in rho params true (p_size p))) non_out
-                else map (fun p => (p_name p, opt_join (lookup (p_name p) W))) non_out in
+            let my_in0 : list (string * option Q) :=
+                map (fun p => (p_name p, opt_join (lookup (p_name p) W))) non_out in
             (* symbols introduced by single-symbol port sizes (first port in _sort_key order wins) *)
             let port_syms : scope :=
                 if is_root then []
@@ -134,7 +132,7 @@ Section Den.
                                                          else (acc ++ [(s, opt_join (lookup (p_name p) W))])%list
                                              | _ => acc
                                              end) (sort_ports non_out) [] in
-            let hash_syms : scope := map (fun pv => (hash_name (fst pv), snd pv)) my_in in
+            let hash_syms : scope := map (fun pv => (hash_name (fst pv), snd pv)) my_in0 in
             let sc0 : scope := (params ++ port_syms ++ (if is_root then [] else hash_syms))%list in
             (* 3. local variables, in dependency order *)
             let sc1 : scope :=
@@ -150,6 +148,10 @@ Section Den.
                                            end) ord sc0
                 end in
             let ev (e : expr) := eval_in rho sc1 is_root e in
+            (* the root's own input/through ports carry their declared expression read in the root's scope
+               (parameters and local variables); any other node's carry what is wired in *)
+            let my_in : list (string * option Q) :=
+                if is_root then map (fun p => (p_name p, ev (p_size p))) non_out else my_in0 in
             (* 4. children, in an order consistent with the wiring *)
             let order := match children_order children conns with Some o => o | None => map rname children end in
             let kids : list vtree :=
